@@ -5,4 +5,4 @@ PID = 'C01'
 gen_cases, run_case = _c.gen_cases, _c.run_case
 REQUIRED = ['steps_law_checked', 'type_tests_checked', 'selections_checked', 'thresholds_checked', 'effects_checked',
             'terminations_checked', 'e3_states_expanded', 'fast_runs_checked', 'binomials_checked', 'rate_params_checked',
-            'percolation_nodes_checked', 'e6_tests', 'rescale_tests', 'rescale_who_events', 'rescale_uneven_or_hub_cases', 'rescale_long_run_cases', 'endurance_runs_completed']
+            'percolation_nodes_checked', 'e6_tests', 'rescale_tests', 'rescale_who_events', 'rescale_uneven_or_hub_cases', 'rescale_long_run_cases', 'endurance_runs_completed', 'e2_runs_on_networks_of_hundreds_of_nodes']
